@@ -1,7 +1,168 @@
-(* Proofs about the encoding (C13). *)
+(* Proofs about the encoding (C13): basic lemmas, the induction principle for
+   schemas, the semantic projection of decoder states (flags ignored). *)
 From Verif Require Import Schema.Json Schema.Sem Schema.Encode.
 From Coq Require Import List NArith ZArith Bool Lia.
 Import ListNotations.
 
 Lemma bool_schema_correct : forall re b j, encode re (SBool b) j = valid re (SBool b) j.
 Proof. intros re [] j; reflexivity. Qed.
+
+(* ---------- induction principle for the nested inductive [schema] ---------- *)
+Definition optP {A} (P : A -> Prop) (o : option A) : Prop := match o with Some x => P x | None => True end.
+
+Definition applic_all (P : schema -> Prop) (p : applic schema) : Prop :=
+  optP P (ap_ref p) /\ optP (Forall P) (ap_allOf p) /\ optP (Forall P) (ap_anyOf p) /\
+  optP (Forall P) (ap_oneOf p) /\ optP P (ap_not p) /\ optP P (ap_if p) /\ optP P (ap_then p) /\
+  optP P (ap_else p) /\ optP (Forall (fun ks => P (snd ks))) (ap_props p) /\
+  optP (Forall (fun ks => P (snd ks))) (ap_pprops p) /\ optP P (ap_pnames p) /\
+  optP (Forall P) (ap_prefix p) /\ optP P (ap_contains p) /\ optP P (ap_addl p) /\ optP P (ap_items p).
+
+Section SchemaInd.
+  Variable P : schema -> Prop.
+  Hypothesis Hb : forall b, P (SBool b).
+  Hypothesis Ho : forall a p, applic_all P p -> P (SObj a p).
+
+  Fixpoint schema_ind' (s : schema) : P s :=
+    match s with
+    | SBool b => Hb b
+    | SObj a p =>
+      let fo (o : option schema) : optP P o :=
+          match o with Some x => schema_ind' x | None => I end in
+      let fl := fix fl (l : list schema) : Forall P l :=
+          match l with [] => Forall_nil _ | x :: r => Forall_cons _ (schema_ind' x) (fl r) end in
+      let fol (o : option (list schema)) : optP (Forall P) o :=
+          match o with Some l => fl l | None => I end in
+      let fp := fun (K : Type) => fix fp (l : list (K * schema)) : Forall (fun ks => P (snd ks)) l :=
+          match l with [] => Forall_nil _ | x :: r => Forall_cons _ (schema_ind' (snd x)) (fp r) end in
+      let fop (K : Type) (o : option (list (K * schema))) : optP (Forall (fun ks => P (snd ks))) o :=
+          match o with Some l => fp K l | None => I end in
+      Ho a p
+         (conj (fo (ap_ref p)) (conj (fol (ap_allOf p)) (conj (fol (ap_anyOf p)) (conj (fol (ap_oneOf p))
+         (conj (fo (ap_not p)) (conj (fo (ap_if p)) (conj (fo (ap_then p)) (conj (fo (ap_else p))
+         (conj (fop _ (ap_props p)) (conj (fop _ (ap_pprops p)) (conj (fo (ap_pnames p))
+         (conj (fol (ap_prefix p)) (conj (fo (ap_contains p)) (conj (fo (ap_addl p)) (fo (ap_items p))))))))))))))))
+    end.
+End SchemaInd.
+
+(* ---------- kinds and masks ---------- *)
+Lemma kind_eqb_eq : forall a b, kind_eqb a b = true <-> a = b.
+Proof. intros [] []; simpl; split; intro H; try reflexivity; discriminate. Qed.
+
+Lemma ctype_eqb_eq : forall a b, ctype_eqb a b = true <-> a = b.
+Proof. intros [] []; simpl; split; intro H; try reflexivity; discriminate. Qed.
+
+Lemma ctype_eqb_refl : forall a, ctype_eqb a a = true.
+Proof. intros []; reflexivity. Qed.
+
+Lemma all_kinds_complete : forall k, In k all_kinds.
+Proof. intros []; simpl; tauto. Qed.
+
+Lemma all_ctypes_complete : forall t, In t all_ctypes.
+Proof. intros []; simpl; tauto. Qed.
+
+Lemma mempty_false : forall a, mempty a = false <-> exists k, a k = true.
+Proof.
+  intros a. unfold mempty. rewrite negb_false_iff, existsb_exists. split.
+  - intros [k [_ H]]; eauto.
+  - intros [k H]; exists k; split; auto using all_kinds_complete.
+Qed.
+
+Lemma mempty_true : forall a, mempty a = true <-> forall k, a k = false.
+Proof.
+  intros a. split.
+  - intros H k. destruct (a k) eqn:E; auto.
+    assert (mempty a = false) by (apply mempty_false; eauto). congruence.
+  - intros H. destruct (mempty a) eqn:E; auto. apply mempty_false in E. destruct E as [k E]. rewrite H in E. discriminate.
+Qed.
+
+Lemma meq_true : forall a b, meq a b = true <-> forall k, a k = b k.
+Proof.
+  intros a b. unfold meq. rewrite forallb_forall. split.
+  - intros H k. apply eqb_prop. apply H. apply all_kinds_complete.
+  - intros H k _. rewrite H. apply eqb_reflx.
+Qed.
+
+(* [allows a t]: some kind of core type t is in a *)
+Lemma allows_iff : forall a t, allows a t = true <-> exists k, ctype_of_kind k = t /\ a k = true.
+Proof.
+  intros a t. unfold allows. rewrite existsb_exists. split.
+  - intros [k [Hin H]]. exists k. split; auto. destruct t; simpl in Hin; intuition subst; reflexivity.
+  - intros [k [<- H]]. exists k. split; auto. destruct k; simpl; auto.
+Qed.
+
+Lemma allows_kind : forall (a : mask) j, a (kind_of j) = true -> allows a (ctype_of j) = true.
+Proof. intros a j H. apply allows_iff. exists (kind_of j). split; auto. Qed.
+
+Lemma allows_mono : forall (a b : mask) t, (forall k, a k = true -> b k = true) -> allows a t = true -> allows b t = true.
+Proof. intros a b t H. rewrite !allows_iff. intros [k [E Hk]]. eauto. Qed.
+
+Lemma allows_ext : forall (a b : mask) t, (forall k, a k = b k) -> allows a t = allows b t.
+Proof.
+  intros a b t H. destruct (allows a t) eqn:E1, (allows b t) eqn:E2; auto.
+  - rewrite <- E2. symmetry. eapply allows_mono; [|exact E1]. intros k; rewrite H; auto.
+  - rewrite <- E1. eapply allows_mono; [|exact E2]. intros k; rewrite H; auto.
+Qed.
+
+(* a mask that, inside T, does not separate the kinds of one core type *)
+Definition relcc (T A : mask) : Prop :=
+  forall k k', ctype_of_kind k = ctype_of_kind k' -> T k = true -> T k' = true -> A k = A k'.
+
+Lemma relcc_allows : forall (T A B : mask) j,
+  relcc T B -> (forall k, A k = true -> T k = true) ->
+  A (kind_of j) = true -> allows (mand A B) (ctype_of j) = true -> B (kind_of j) = true.
+Proof.
+  intros T A B j Hcc Hsub HA H. apply allows_iff in H. destruct H as [k [E H]].
+  unfold mand in H. apply andb_true_iff in H. destruct H as [H1 H2].
+  rewrite (Hcc (kind_of j) k); auto.
+Qed.
+
+(* ---------- small list facts ---------- *)
+Lemma forallb_app' : forall {A} (f : A -> bool) l1 l2, forallb f (l1 ++ l2) = forallb f l1 && forallb f l2.
+Proof. intros. apply forallb_app. Qed.
+
+Lemma existsb_false_iff : forall {A} (f : A -> bool) l, existsb f l = false <-> forall x, In x l -> f x = false.
+Proof.
+  intros A f l. split.
+  - intros H x Hin. destruct (f x) eqn:E; auto. assert (existsb f l = true) by (apply existsb_exists; eauto). congruence.
+  - intros H. destruct (existsb f l) eqn:E; auto. apply existsb_exists in E. destruct E as [x [Hin E]]. rewrite H in E; auto.
+Qed.
+
+Lemma count_app : forall {A} (f : A -> bool) l1 l2, count f (l1 ++ l2) = count f l1 + count f l2.
+Proof. intros. unfold count. rewrite filter_app, app_length. reflexivity. Qed.
+
+Lemma count_ext : forall {A} (f g : A -> bool) l, (forall x, In x l -> f x = g x) -> count f l = count g l.
+Proof.
+  intros A f g l H. unfold count. f_equal. induction l as [|x l IH]; simpl; auto.
+  rewrite (H x) by (left; auto). rewrite IH; auto. intros y Hy. apply H. right; auto.
+Qed.
+
+Lemma count_map : forall {A B} (g : A -> B) (f : B -> bool) l, count f (map g l) = count (fun x => f (g x)) l.
+Proof.
+  intros. unfold count. induction l as [|x l IH]; simpl; auto. destruct (f (g x)); simpl; rewrite IH; auto.
+Qed.
+
+Lemma filter_len_le : forall {A} (f : A -> bool) l, length (filter f l) <= length l.
+Proof. intros A f l. induction l as [|x l IH]; simpl; auto. destruct (f x); simpl; lia. Qed.
+
+Lemma count_all : forall {A} (f : A -> bool) l, count f l = length l <-> forallb f l = true.
+Proof.
+  intros A f l. unfold count. induction l as [|x l IH]; simpl.
+  - tauto.
+  - destruct (f x); simpl.
+    + rewrite <- IH. lia.
+    + pose proof (filter_len_le f l). split; [lia | discriminate].
+Qed.
+
+Lemma count_zero : forall {A} (f : A -> bool) l, count f l = 0 <-> existsb f l = false.
+Proof.
+  intros A f l. unfold count. induction l as [|x l IH]; simpl.
+  - tauto.
+  - destruct (f x); simpl; [split; discriminate | exact IH].
+Qed.
+
+Lemma count_pos : forall {A} (f : A -> bool) l, 1 <= count f l <-> existsb f l = true.
+Proof.
+  intros A f l. destruct (existsb f l) eqn:E.
+  - split; auto. intros _. destruct (count f l) eqn:C; [|lia]. apply count_zero in C. congruence.
+  - apply count_zero in E. rewrite E. split; [lia | discriminate].
+Qed.
